@@ -67,6 +67,18 @@ def three_forms(ctx, loader, obj, tag, **kw):
     return first
 
 
+OPTIONS = [{"strict": True}, {"strict": False}, {"delimiter": "|"}, {"strict": True, "delimiter": "_"}, {"strict": False, "delimiter": "/"}]
+
+
+def with_options(loader, obj, rng, pairs=()):
+    """The same data through the same loader with its optional parameters spelled out (monitored like any other load)."""
+    for kw in rng.sample(OPTIONS, k=2):
+        o = call(loader, obj, **kw)
+        probe.S.counters["wl:loads-with-options:" + "+".join(sorted(kw))] += 1
+        if o[0] == "ret" and pairs and kw.get("strict", True):
+            exercise(o[1], list(pairs)[:6])
+
+
 def exercise(c, pairs):
     for p, u in pairs:
         call(c.expand_pair, p, "1")
@@ -126,6 +138,7 @@ def run_case(ctx, g, rng):
         o = three_forms(ctx, loader, pm, "prefix_map")
         if o[0] == "ret":
             exercise(o[1], pm.items())
+        with_options(C.from_prefix_map, pm, rng, pm.items())
         probe.note_key(f"pm:dup{int(dup)}:{o[0]}:n{min(len(pm), 3)}", dup)
         # upgrade_prefix_map on the same (possibly non-bijective) map
         uo = call(api.upgrade_prefix_map, dict(pm))
@@ -142,6 +155,7 @@ def run_case(ctx, g, rng):
         o = three_forms(ctx, C.from_priority_prefix_map, ppm, "priority_prefix_map")
         if o[0] == "ret":
             exercise(o[1], [(p, u) for p, us in ppm.items() for u in us])
+        with_options(C.from_priority_prefix_map, ppm, rng, [(p, u) for p, us in ppm.items() for u in us])
         multi = any(len(us) > 1 for us in ppm.values())
         probe.note_key(f"ppm:dup{int(dup)}:multi{int(multi)}:{o[0]}", multi or dup)
         S.counters["wl:priority_map"] += 1
@@ -150,6 +164,7 @@ def run_case(ctx, g, rng):
         o = three_forms(ctx, C.from_reverse_prefix_map, rpm, "reverse_prefix_map")
         if o[0] == "ret":
             exercise(o[1], [(p, u) for u, p in rpm.items()])
+        with_options(C.from_reverse_prefix_map, rpm, rng, [(p, u) for u, p in rpm.items()])
         groups = {}
         for u, p in rpm.items():
             groups.setdefault(p, []).append(u)
@@ -173,6 +188,7 @@ def run_case(ctx, g, rng):
             epm.append(d)
         loader = rng.choice([C.from_extended_prefix_map, api.load_extended_prefix_map])
         o = three_forms(ctx, loader, epm, "extended_prefix_map")
+        with_options(C.from_extended_prefix_map, epm, rng)
         call(C.from_extended_prefix_map, [gen.mk_record(api, r) for r in recs])
         # "an iterable of records or dictionaries": also handed over as one-shot iterables
         shape = rng.choice(["generator", "iterator", "map", "generator-of-records", "tuple"])
@@ -216,6 +232,7 @@ def run_case(ctx, g, rng):
             data["@id"] = "x"
         loader = rng.choice([C.from_jsonld, api.load_jsonld_context])
         o = three_forms(ctx, loader, data, "jsonld")
+        with_options(C.from_jsonld, data, rng)
         if o[0] == "ret":
             exercise(o[1], [(k, v if isinstance(v, str) else v["@id"]) for k, v in ctxd.items()
                             if k and not k.startswith("@") and (isinstance(v, str) or (isinstance(v, dict) and v.get("@prefix") is True))])
